@@ -14,7 +14,8 @@ from .loader import AnalysisError, REPO
 class Mutant:
   """A variant = one textual edit of one file.  `old` must occur exactly
   `count` times (default 1) in the current source, otherwise the variant is
-  *inapplicable* on this tree (reported, never a failure)."""
+  *inapplicable* on this tree (reported, never a failure).  count=0 means
+  "replace every occurrence (at least one)" - used for renamings."""
 
   def __init__(self, name, file, old, new, expect='fire', rule=None, count=1, also=None):
     self.name = name
@@ -34,7 +35,8 @@ class Mutant:
       if src is None:
         with open(os.path.join(repo, file), encoding='utf-8') as f:
           src = f.read()
-      if src.count(old) != (self.count if file == self.file and old == self.old else 1):
+      want = self.count if file == self.file and old == self.old else 1
+      if (want and src.count(old) != want) or (not want and src.count(old) < 1):
         return None
       src = src.replace(old, new)
       if file.endswith('.py'):
